@@ -311,7 +311,7 @@ func init() {
 					if !contains(hs.vers, pver) {
 						wantHTag = fmt.Sprintf("host-legacy%d", pver)
 					}
-					if t := tagOf(cfg.Plugins); t != wantHTag {
+					if t := tagOf(pluginSetInUse(cl, cfg)); t != wantHTag {
 						x.Fail("S", "host uses set %q, the set registered under version %d is %q: the two sides proceed with sets of different versions [%s]", t, pver, wantHTag, desc)
 					}
 				}
